@@ -52,6 +52,47 @@ impl HeightRange {
 //@| Some(heights_relative_to_unstable_blocks)
 //@end
 
+// get_block_headers_in_range (unstable_blocks.rs:272) as a WHOLE: the headers of the served branch at exactly those indices, in order.
+// R19: the `impl Iterator` return becomes the Vec it is collected into (`return Default::default()` => the empty Vec, the final
+// `.into_iter()` dropped); `chain[lo..=hi].iter().map(|b| b.header()).collect::<Vec<_>>()` => an index loop from lo to hi
+impl UnstableBlocks {
+//@extract file=canister/src/unstable_blocks.rs in="impl UnstableBlocks" item="fn get_block_headers_in_range" props=C07,C02
+//@ ret r
+//@ sigrewrite R19 "heights: std::ops::RangeInclusive<Height>," => "heights: HeightRange,"
+//@ sigrewrite R19 "-> impl Iterator<Item = &Header>" => "-> Vec<&Header>"
+//@ rewrite R19 "return Default::default\(\);" => "return Vec::new();"
+//@ rewrite R19 "let heights_relative_to_unstable_blocks = std::ops::RangeInclusive::new\(" => "let heights_relative_to_unstable_blocks = ("
+//@ rewrite R19 "get_main_chain\(self\)\.into_chain\(\)\[heights_relative_to_unstable_blocks\]\s*\.iter\(\)\s*\.map\(\|block\| block\.header\(\)\)\s*\.collect::<Vec<_>>\(\)\s*\.into_iter\(\)" => "let vp_chain = get_main_chain(self).into_chain();\n        let mut vp_out: Vec<&Header> = Vec::new();\n        let mut vp_k: usize = heights_relative_to_unstable_blocks.0;\n        while vp_k <= heights_relative_to_unstable_blocks.1 {\n            let block = vp_chain[vp_k];\n            vp_out.push(block.header());\n            vp_k = vp_k + 1;\n        }\n        vp_out"
+//@ spec
+//@| requires
+//@|     self.tree.wf(),
+//@|     heights.lo <= heights.hi,
+//@|     // established by verify_and_return_effective_range: the range ends at or below the tip of the served branch
+//@|     heights.hi < stable_height + self.tree.best_path().len(),
+//@| ensures
+//@|     ({
+//@|         let chain = self.tree.best_path();
+//@|         if heights.hi < stable_height { r@.len() == 0 } else {
+//@|             let lo = if heights.lo >= stable_height { heights.lo - stable_height } else { 0 };
+//@|             let hi = heights.hi - stable_height;
+//@|             // one header per height of the range that is not below the stable height, ascending, taken from the served branch
+//@|             &&& r@.len() == hi - lo + 1
+//@|             &&& forall|k: int| 0 <= k < r@.len() ==> *(#[trigger] r@[k]) == chain[lo + k].header
+//@|         }
+//@|     }),
+//@ loop 1
+//@| invariant
+//@|     heights_relative_to_unstable_blocks.0 <= vp_k <= heights_relative_to_unstable_blocks.1 + 1,
+//@|     heights_relative_to_unstable_blocks.1 < vp_chain@.len(),
+//@|     deref_seq(vp_chain@) =~= self.tree.best_path(),
+//@|     vp_out@.len() == vp_k - heights_relative_to_unstable_blocks.0,
+//@|     forall|k: int| 0 <= k < vp_out@.len() ==> *(#[trigger] vp_out@[k]) == self.tree.best_path()[heights_relative_to_unstable_blocks.0 + k].header,
+//@| decreases heights_relative_to_unstable_blocks.1 + 1 - vp_k,
+//@ before "vp_out.push(block.header());"
+//@| proof { assert(*block == self.tree.best_path()[vp_k as int]); }
+//@end
+}
+
 //@lemma fn=lemma_range_composition props=C07
 // Composition across the stable boundary: if the stable store holds exactly the heights below the stable height
 // (wf_headers) the stable part [start, min(end, sh-1)] and the unstable part [max(start, sh), end] partition [start, end]:
